@@ -192,12 +192,23 @@ def main():
                 false_marks = {j for j, ej in exp.items()
                                if ej != circ and rec['obs'].get(j) == circ
                                and any(has_lazy(g, x) for x in upstream(g, j))}
+                # cells of an unavoidable cycle that do not show the mark: the mark was put on
+                # one of their inputs and consumed by an ISERROR / IFERROR / COUNT on the cycle
+                consumed = {j for j, ej in exp.items()
+                            if ej == circ and rec['obs'].get(j) is not None and rec['obs'].get(j) != circ}
                 for i, e in exp.items():
                     o = rec['obs'].get(i)
                     if o is None or not V.matches(e, o):
                         if e == circ and o is not None and (
                                 has_interceptor(g, i) or (o.get('k') == 'e' and o != circ)):
                             # the marked cell's formula was evaluated once on the mark
+                            sig = {'cat': 'cycle-cell-shows-its-formula-evaluated-on-the-mark'}
+                        elif e == circ and o is not None and any(
+                                has_interceptor(g, x) for x in upstream(g, i) if i in upstream(g, x)):
+                            # ... the interceptor sits in another cell of the same cycle
+                            sig = {'cat': 'cycle-cell-shows-its-formula-evaluated-on-the-mark'}
+                        elif e != circ and o is not None and (upstream(g, i) & consumed):
+                            # downstream of such a cell: an ordinary value instead of an error
                             sig = {'cat': 'cycle-cell-shows-its-formula-evaluated-on-the-mark'}
                         elif e != circ and o == circ and has_lazy(g, i):
                             sig = {'cat': 'cycle-through-unselected-branches-not-resolved'}
@@ -225,7 +236,11 @@ def main():
                         if (V.show(ref[i]) if ref.get(i) else None) != (V.show(obs[i]) if obs.get(i) else None)]
                 if diff:
                     i = sorted(diff)[0]
-                    rep.violation({'kind': 'hash-seed-or-path-dependence', 'seed': s_, 'cell': i},
+                    exp_ = lazy[idx[s_]]
+                    on_cycle = all(exp_.get(x) in (V.E('CIRC'), {'k': 'anyerr'}) for x in diff)
+                    rep.violation({'cat': 'which-cell-of-an-unavoidable-cycle-shows-the-mark-depends-on-order'}
+                                  if on_cycle else
+                                  {'kind': 'hash-seed-or-path-dependence', 'seed': s_, 'cell': i},
                                   {'workbook_seed': s_, 'cell': i,
                                    'run_a': {'hashseed': ref_hs, 'path': ref_path,
                                              'value': V.show(ref[i]) if ref.get(i) else None},
